@@ -151,12 +151,12 @@ def loop_stalled(evs):
 # --- Modes (C04) ----------------------------------------------------------------------------------
 
 def altscreen_left_on(evs):
-    """the command leaving the alternate screen is missing from the output"""
-    i = _last(evs, lambda e: e.get("ev") == "set" and e.get("m") == 1049 and e.get("v") is False)
-    if i is None:
+    """no command leaving the alternate screen reaches the terminal (the session entered it)"""
+    on = lambda e: e.get("ev") == "set" and e.get("m") == 1049 and e.get("v") is True
+    off = lambda e: e.get("ev") == "set" and e.get("m") == 1049 and e.get("v") is False
+    if not any(on(e) for e in evs) or not any(off(e) for e in evs):
         return None
-    del evs[i]
-    return evs
+    return [e for e in evs if not off(e)]
 
 
 def cursor_left_hidden(evs):
@@ -169,11 +169,10 @@ def cursor_left_hidden(evs):
 
 
 def kitty_not_popped(evs):
-    i = _last(evs, lambda e: e.get("ev") == "kpop")
-    if i is None:
+    """no kitty keyboard pop reaches the terminal (the session pushed flags)"""
+    if not any(e.get("ev") == "kpush" for e in evs) or not any(e.get("ev") == "kpop" for e in evs):
         return None
-    del evs[i]
-    return evs
+    return [e for e in evs if e.get("ev") != "kpop"]
 
 
 # --- Conc (C10) -----------------------------------------------------------------------------------
